@@ -228,12 +228,39 @@ def payload_attacks():
         assert packfmt.patch_delta(base, d) == target
         return d
 
+    def ident_copy(base):
+        d = packfmt.enc_varint(len(base)) + packfmt.enc_varint(len(base))
+        pos = 0
+        while pos < len(base):
+            n = min(0xFFFF, len(base) - pos)
+            op = bytearray([0x80])
+            for i in range(4):
+                if (pos >> (8 * i)) & 0xFF:
+                    op[0] |= 1 << i
+                    op.append((pos >> (8 * i)) & 0xFF)
+            for i in range(2):
+                if (n >> (8 * i)) & 0xFF:
+                    op[0] |= 0x10 << i
+                    op.append((n >> (8 * i)) & 0xFF)
+            d += bytes(op)
+            pos += n
+        assert packfmt.patch_delta(base, d) == base
+        return d
+
     base_id = packfmt.obj_id(b"tree", base_tree)
     ents = [(packfmt.OBJ_REF_DELTA, ident_delta(base_tree, t2), base_id), (packfmt.OBJ_REF_DELTA, ident_delta(base_tree, bad), base_id), (packfmt.OBJ_BLOB, b"hidden extra blob\n", None)]
     full = packfmt.build_pack(ents)
     body = full[:-20]
     under = body[:8] + struct.pack(">L", 2) + body[12:]
     ids = [packfmt.obj_id(b"tree", t2).hex().encode(), packfmt.obj_id(b"blob", b"hidden extra blob\n").hex().encode()]
+    # REF deltas that reproduce an object the store already has (the result carries the base's own name): the pack then
+    # lists an id whose only representation is a delta onto that very id
+    for bname, (bt, bb) in zip(("blob", "tree", "commit"), base_objects()):
+        b_id = packfmt.obj_id(bt, bb)
+        out[f"thin:identity-delta-onto-existing-{bname}"] = (packfmt.build_pack([(packfmt.OBJ_REF_DELTA, ident_copy(bb), b_id)]), True, [])
+        out[f"thin:identity-delta-onto-existing-{bname}+new-blob"] = (
+            packfmt.build_pack([(packfmt.OBJ_BLOB, b"a new blob next to it\n", None), (packfmt.OBJ_REF_DELTA, ident_copy(bb), b_id)]), True,
+            [packfmt.obj_id(b"blob", b"a new blob next to it\n").hex().encode()])
     out["thin:good-delta+unparsable-delta-result"] = (full, True, ids)
     out["thin:good-delta+unparsable-delta-result+undercounted"] = (under + hashlib.sha1(under).digest(), True, ids)
     return out
@@ -267,7 +294,7 @@ def open_store(kind, template, ctx):
 
     d = ctx.scratch.new("st")
     path = os.path.join(d, "objects")
-    shutil.copytree(template, path)
+    shutil.copytree(template + ("-packed" if kind == "diskp" else ""), path)
     return DiskObjectStore(path), d
 
 
@@ -335,7 +362,7 @@ def judge_ingest(ctx, template, kind, how, seed_name, mut_name, data, limit, che
     with warnings.catch_warnings():
         warnings.simplefilter("ignore")
         store, sdir = open_store(kind, template, ctx)
-        path = store.path if kind == "disk" else None
+        path = store.path if kind in ("disk", "diskp") else None
         try:
             before, idx_before = store_state(store, path)
             outcome = "ok"
@@ -381,7 +408,7 @@ def judge_ingest(ctx, template, kind, how, seed_name, mut_name, data, limit, che
                         return outcome
             views = [("same-instance", store)]
             fresh = None
-            if kind == "disk":
+            if kind in ("disk", "diskp"):
                 from dulwich.object_store import DiskObjectStore
 
                 fresh = DiskObjectStore(path)
@@ -419,7 +446,7 @@ def judge_ingest(ctx, template, kind, how, seed_name, mut_name, data, limit, che
             finally:
                 if fresh is not None:
                     fresh.close()
-            if kind == "disk" and outcome != "ok":
+            if kind in ("disk", "diskp") and outcome != "ok":
                 leftovers = [f for f in os.listdir(path) if f.startswith("tmp_pack")] + [f for f in os.listdir(os.path.join(path, "pack")) if f.endswith(".pack") and f[:-5] + ".idx" not in os.listdir(os.path.join(path, "pack"))]
                 if leftovers:
                     ctx.label("orphan-temp-file-after-failure(allowed)")
@@ -469,9 +496,20 @@ def byte_mutations(data, thorough, rot):
 
 
 def _template(ctx):
+    """Two templates side by side: <path> (base objects loose) and <path>-packed (the same objects in one pack)."""
+    from dulwich.object_store import DiskObjectStore
+
     d = ctx.scratch.new("tmpl")
     path = os.path.join(d, "objects")
     make_disk_store(path)
+    shutil.copytree(path, path + "-packed")
+    s = DiskObjectStore(path + "-packed")
+    try:
+        s.pack_loose_objects()
+        if not s.packs or list(s._iter_loose_objects()):
+            raise HarnessError("packed template still has loose objects")
+    finally:
+        s.close()
     return path
 
 
@@ -868,7 +906,8 @@ def run(ctx):
                     items.append((seed, kind, how, ns, k))
     ctx.parallel(_part_ingest, items)
     ctx.parallel(_part_grammar, [(k, h) for k in ("disk", "memory") for h in INGEST if not (h == "stream_reader" and k == "memory") and h != "add_pack_data"])
-    ctx.parallel(_part_payload, [(k, h) for k in ("disk", "memory") for h in INGEST if h != "stream_reader"])
+    ctx.parallel(_part_grammar, [("diskp", h) for h in ("add_pack", "add_thin_pack:all")])
+    ctx.parallel(_part_payload, [(k, h) for k in ("disk", "memory", "diskp") for h in INGEST if h != "stream_reader"])
     readers = sorted(reader_seeds(ctx))
     ctx.note("readers", readers)
     ctx.parallel(_part_reader, [(r, 3, k) for r in readers for k in range(3)])
